@@ -36,6 +36,8 @@ type scanScenario struct {
 	Match    string // optional MATCH pattern
 	MaxMut   int
 	MaxSteps int // positions at which a mutation may be placed
+	// TypeArg: SCAN ... TYPE <TypeArg> (keyspace only); the keys of the scenario are strings
+	TypeArg string
 	// Via: the collection is not the one the single-element commands built but what a copying command
 	// made of it before the iteration starts (its table is built by different code)
 	Via string
@@ -202,6 +204,21 @@ func scanScenarios(tier string) []scanScenario {
 				out = append(out, pm)
 			}
 		}
+		// --- SCAN ... TYPE in every spelling of the type names
+		if kind == "scan" {
+			var els []string
+			for i := 0; i < 20; i++ {
+				els = append(els, "t"+itoa(i))
+			}
+			for _, ty := range []string{"string", "STRING", "String", "sTrInG", "hash", "HASH", "list", "Set", "zset", "nosuchtype", ""} {
+				if ty == "" {
+					continue
+				}
+				e := scanScenario{Name: "scan/type-" + ty, Kind: kind, Initial: els, TypeArg: ty, Counts: []int{1, 7, 100}, MaxMut: 1, MaxSteps: 3}
+				e.Pool = []scanMut{{true, "z1"}, {false, "t3"}}
+				out = append(out, e)
+			}
+		}
 		// --- MATCH patterns with escapes, against element names that contain the special characters themselves
 		// (a seeded change of wave 6 looked "literal" patterns up directly and forgot what a backslash means)
 		special := []string{"a\\b", "ab", "abc", "ab\\", "a*b", "a?b", "[ab]", "a", "b", "\\", "*", "a\\bc", "axb"}
@@ -335,7 +352,13 @@ func runScanPlan(sc *scanScenario, pl scanPlan) (res scanResult) {
 			always[n] = true
 			ever[n] = true
 		}
-		matches := func(n string) bool { return sc.Match == "" || vm.GlobMatch(sc.Match, n) }
+		matches := func(n string) bool {
+			// type names are compared without regard to case; every key of a keyspace scenario is a string
+			if sc.TypeArg != "" && !strings.EqualFold(sc.TypeArg, "string") {
+				return false
+			}
+			return sc.Match == "" || vm.GlobMatch(sc.Match, n)
+		}
 		cursor := "0"
 		calls := 0
 		mi := 0
@@ -355,6 +378,9 @@ func runScanPlan(sc *scanScenario, pl scanPlan) (res scanResult) {
 			}
 			if sc.Match != "" {
 				args = append(args, "MATCH", sc.Match)
+			}
+			if sc.TypeArg != "" {
+				args = append(args, "TYPE", sc.TypeArg)
 			}
 			args = append(args, "COUNT", itoa(pl.Count))
 			r = do(args...)
